@@ -244,6 +244,15 @@ func pairBegin() *ePair {
 		}
 		return t
 	}
+	vrt.PtrOrder = func(k interface{}) (uint64, bool) {
+		switch v := k.(type) {
+		case *Session:
+			return uint64(v.connFd)<<8 | uint64(v.sessionID&0xff), true
+		case *Stream:
+			return uint64(v.id), true
+		}
+		return 0, false
+	}
 	bufferManagers = p.tableOf(0)
 	vrt.SwitchHook = func(proc int) { bufferManagers = p.tableOf(proc) }
 	vrt.OnCleanup(p.cleanup)
